@@ -306,9 +306,9 @@ def correspondence(rep, ctx):
         for C in (rd.Inventory, rd.InventoryHP):
             invx = C({"Mo-99": 1000000, "Sr-90": 2000000}, "num")
             for arr_ in (np.array([0, 1, 2, 5, 12]), np.array([0, 3, 7], dtype=np.int32), np.array([0.5, 1.25, 9.75], dtype=np.float32),
-                         np.array([2.0, 0.25, 11.5])):
+                         np.array([2.0, 0.25, 11.5]), np.array([0.0, 1.0, 1.0, 5.0, 0.0])):
                 for kind_ in ("Bq", "num", "mass_frac", "pg"):
-                    if C is rd.InventoryHP and (len(arr_) > 3 or (not thorough and (arr_.dtype != np.int32 or kind_ not in ("Bq", "mass_frac")))):
+                    if C is rd.InventoryHP and ((len(arr_) > 3 and arr_.dtype != np.float64) or (not thorough and (arr_.dtype != np.int32 or kind_ not in ("Bq", "mass_frac")))):
                         continue
                     desc = f"{C.__name__}.decay_time_series(np.array({arr_.tolist()}, dtype={arr_.dtype}), 'h', decay_units={kind_!r})"
                     rep.case(("explicit-array", C.__name__, str(arr_.dtype), kind_))
